@@ -90,7 +90,11 @@ func EncodeCMPPContentAndSplit(ctx context.Context, content string, msgFmt datac
 		return nil, 0, fmt.Errorf("content needs %d parts, more than %d", n, maxLongSmsParts)
 	}
 
-	return splitWithUDHI(encodedData, perMsgLength, frameKey), actualMsgFmt, nil
+	contents, err = splitWithUDHI(encodedData, perMsgLength, frameKey, encoder.Name())
+	if err != nil {
+		return nil, 0, err
+	}
+	return contents, actualMsgFmt, nil
 }
 
 // DecodeCMPPCContent decodes CMPP content using the provided dataCoding.
@@ -161,7 +165,11 @@ func EncodeSMPPContentAndSplit(ctx context.Context, content string, msgFmt datac
 		return nil, 0, fmt.Errorf("content needs %d parts, more than %d", n, maxLongSmsParts)
 	}
 
-	return splitWithUDHI(encodedData, perMsgLength, frameKey), actualMsgFmt, nil
+	contents, err = splitWithUDHI(encodedData, perMsgLength, frameKey, encoder.Name())
+	if err != nil {
+		return nil, 0, err
+	}
+	return contents, actualMsgFmt, nil
 }
 
 // DecodeSMPPCContent decodes SMPP content using the provided dataCoding.
@@ -250,36 +258,79 @@ func encodeAndSplitGSM7Packed(content string, frameKey byte) ([][]byte, datacodi
 }
 
 // splitWithUDHI splits the long message according to perMsgLength and adds a 6-byte header for concatenated SMS.
-func splitWithUDHI(data []byte, perMsgLength int, frameKey byte) [][]byte {
+// A part never ends inside a character of the given coding (UTF-16 surrogate pair, multi-byte GB18030
+// character, GSM 7-bit escape pair): such a cut is moved back to the character boundary, so every part can
+// be decoded on its own.
+func splitWithUDHI(data []byte, perMsgLength int, frameKey byte, coding datacoding.DataCoding) ([][]byte, error) {
 	total := len(data)
-	msgCount := ceil(total, perMsgLength)
-	contentBytes := make([][]byte, 0, msgCount)
-	for idx := 0; idx < msgCount; idx++ {
-		contentByte := make([]byte, 0, perMsgLength+datacoding.UDHILength)
+	contentBytes := make([][]byte, 0, ceil(total, perMsgLength)+1)
+	for begin := 0; begin < total; {
+		end := begin + perMsgLength
+		if end >= total {
+			end = total
+		} else {
+			end = charBoundary(coding, data, begin, end)
+		}
+
+		contentByte := make([]byte, 0, (end-begin)+datacoding.UDHILength)
 
 		// append UDHI
 		contentByte = append(contentByte, longMsgHeader6ByteFrameKey)
 		contentByte = append(contentByte, longMsgHeader6ByteFrameTotal)
 		contentByte = append(contentByte, longMsgHeader6ByteFrameNum)
-		contentByte = append(contentByte, frameKey)       // frameKey
-		contentByte = append(contentByte, byte(msgCount)) // total
-		contentByte = append(contentByte, byte(idx+1))    // num
+		contentByte = append(contentByte, frameKey)                  // frameKey
+		contentByte = append(contentByte, 0)                         // total, filled in below
+		contentByte = append(contentByte, byte(len(contentBytes)+1)) // num
 
-		// split by perMsgLength
-		begin := idx * perMsgLength
-		end := (idx + 1) * perMsgLength
-		if end > total {
-			end = total
-		}
-		if begin == end {
-			continue
-		}
 		contentByte = append(contentByte, data[begin:end]...)
-
 		contentBytes = append(contentBytes, contentByte)
+
+		begin = end
+	}
+	if len(contentBytes) > maxLongSmsParts {
+		return nil, fmt.Errorf("content needs %d parts, more than %d", len(contentBytes), maxLongSmsParts)
+	}
+	for idx := range contentBytes {
+		contentBytes[idx][4] = byte(len(contentBytes))
 	}
 
-	return contentBytes
+	return contentBytes, nil
+}
+
+// charBoundary returns the largest cut position in (begin, end] that does not fall inside a character.
+func charBoundary(coding datacoding.DataCoding, data []byte, begin, end int) int {
+	switch coding {
+	case datacoding.DataCodingUcs2, datacoding.DataCodingUcs2NoSign:
+		// UTF-16BE: do not separate a high surrogate (D800..DBFF) from its low surrogate
+		if end-begin > 2 && data[end-2] >= 0xD8 && data[end-2] <= 0xDB {
+			return end - 2
+		}
+	case datacoding.DataCodingGSM7UnPacked:
+		// an escape indicator stays with the septet it modifies
+		if end-begin > 1 && data[end-1] == gsm7encoding.EscapeSequence {
+			return end - 1
+		}
+	case datacoding.DataCodingGB18030:
+		// walk the characters of this part: 1 byte (< 0x80), 4 bytes (second byte 0x30..0x39) or 2 bytes
+		pos := begin
+		for pos < end {
+			n := 1
+			if data[pos] >= 0x81 && data[pos] <= 0xFE && pos+1 < len(data) {
+				n = 2
+				if data[pos+1] >= 0x30 && data[pos+1] <= 0x39 {
+					n = 4
+				}
+			}
+			if pos+n > end {
+				break
+			}
+			pos += n
+		}
+		if pos > begin {
+			return pos
+		}
+	}
+	return end
 }
 
 // ceil: rounding up to the nearest integer.
